@@ -90,23 +90,39 @@ def handle : Handler
       | .error e => some (showErr e)
       | .ok none => some "ok nan"
       | .ok (some r) => some ("ok " ++ showRat r)) "bad-args"
-  | "c11.core", [n, m, ip, ix, _dt] => some <| Option.getD (do
-      let n ← n.toNat?
-      let m ← m.toNat?
-      let ip ← natList? ip
-      let ix ← natList? ix
-      match getCoreDecomposition n m ip ix with
+  | "c11.core", [n, m, ip, ix, dt] => some <| Option.getD (do
+      let c ← csrRat? n m ip ix dt
+      let vm := valMat c
+      match getCoreDecomposition c.nRow c.nCol (valOf vm) with
       | .error e => some (showErr e)
       | .ok none => some "fuel"
       | .ok (some l) => some ("ok " ++ showList l)) "bad-args"
   | "c11.cliques", [n, m, ip, ix, dt, k] => some <| Option.getD (do
       let c ← csrRat? n m ip ix dt
       let k ← k.toInt?
+      let vm := valMat c
       let em := edgeMat c
-      match countCliquesEntry c.nRow c.nCol ⟨c.indptr.toList, c.indices.toList⟩ (edgeOf em) k with
+      match countCliquesEntry c.nRow c.nCol (valOf vm) (edgeOf em) k with
       | .error e => some (showErr e)
       | .ok none => some "fuel"
       | .ok (some t) => some s!"ok {t}") "bad-args"
+  -- the same with the permutation `np.argsort` actually returned (on a non-symmetric matrix the count depends on
+  -- the order of equal core values)
+  | "c11.cliques_with", [n, m, ip, ix, dt, k, perm] => some <| Option.getD (do
+      let c ← csrRat? n m ip ix dt
+      let k ← k.toNat?
+      let perm ← natList? perm
+      let em := edgeMat c
+      match countCliquesWith c.nRow (edgeOf em) k perm with
+      | .error e => some (showErr e)
+      | .ok t => some s!"ok {t}") "bad-args"
+  -- the core kernel alone on a raw CSR structure
+  | "c11.core_kernel", [ip, ix] => some <| Option.getD (do
+      let ip ← natList? ip
+      let ix ← natList? ix
+      match computeCore ip ix with
+      | none => some "fuel"
+      | some l => some ("ok " ++ showList l)) "bad-args"
   -- the DAG handed to the kernels (used by the harness to compare with the real get_dag on the same order)
   | "c11.dag", [n, ip, ix, dt, o] => some <| Option.getD (do
       let c ← csrRat? n n ip ix dt
@@ -176,8 +192,9 @@ def handle : Handler
       let perm ← natList? perm
       some (if perm.isPerm (List.range n) then "holds" else "fails not-a-permutation")) "bad-args"
   -- the prange descriptor regenerated from the source on every run
-  | "c11.prange", [fn, lv, reds, others, rr, cs] => some <| Option.getD (do
+  | "c11.prange", [fn, lv, reds, tys, others, rr, cs] => some <| Option.getD (do
       let d : PrangeDesc := { function := fn, loopVar := lv, reductions := ← pairList? reds,
+                              reductionTypes := if tys == "-" then [] else (tys.splitOn ",").map (·.replace "~" " "),
                               otherStores := ← pairList? others, reductionReads := ← rr.toNat?,
                               callees := ← callees? cs }
       some (if d.raceFree then "racefree" else "not-racefree")) "bad-args"
